@@ -151,7 +151,7 @@ def rule_segloop(ctx):
                 cont = all(h in body.reachable_feasible(tg, avoid={gb}) and not any(b in dict(models.returns(body)) for b in body.reachable_feasible(tg, avoid={gb, h})) for tg in tgts) and bool(tgts)
                 ctx.ob("SEGLOOP", I("(ii) a skipped raw segment continues the loop without touching the result"), cont, fn=key, site=body.site(gb), detail=show_canon(c))
         # strict decode dominates
-        dec_ok = any(c[0] == "callres" and c[1] in pm["decoders"] and c[2] == (ITEM,) and c[3] == "Ok?" for c in cat)
+        dec_ok = any(c[0] == "callres" and c[1] in pm["decoders"] and c[2] == (ITEM,) and c[3] in ("Ok?", "Ok") for c in cat)
         ctx.ob("SEGLOOP", I("(iii) strict decode of the raw segment succeeded on the append's path"), dec_ok, fn=key, site=app["site"], detail="; ".join(show_canon(c) for c in cat))
         # (iii) decoded rejects with failing edges
         want_atoms = [("contains", "/", DEC, False)]
